@@ -43,10 +43,10 @@ Next ==
                                   !.rejected = @ + (IF ev.out = "rejected" THEN 1 ELSE 0),
                                   !.unknown = @ + (IF ev.out \notin {"ok", "rejected", "refused"} THEN 1 ELSE 0)]
             /\ IF ev.out = "ok"
-                 THEN /\ bad' = IF acc THEN bad ELSE Flag(ev, "accepted_a_change_the_rules_refuse", {ev.typ, ev.id})
+                 THEN /\ bad' = IF acc THEN bad ELSE Flag(ev, "accepted_a_change_the_rules_refuse", {ev.typ, ToString(ev.id)})
                       /\ m' = CCDo(m, cc, m.ccid) /\ sure' = sure     \* the new ccid is learned from the next observation
                ELSE IF ev.out = "rejected"
-                 THEN /\ bad' = IF ~acc THEN bad ELSE Flag(ev, "rejected_a_change_the_rules_accept", {ev.typ, ev.id})
+                 THEN /\ bad' = IF ~acc THEN bad ELSE Flag(ev, "rejected_a_change_the_rules_accept", {ev.typ, ToString(ev.id)})
                       /\ UNCHANGED <<m, sure>>
                ELSE IF ev.out = "refused" THEN UNCHANGED <<m, sure, bad>>
                ELSE /\ sure' = FALSE /\ UNCHANGED <<m, bad>>
